@@ -147,6 +147,19 @@ def gen_case(seed):
                 sid = r3.choice(own)
                 op.update(frames_hex="11%02x00" % sid, require_stream=sid)
             script.append(op)
+    r5 = random.Random("c06-ownstop/%s" % seed)
+    if r5.random() < 0.3:
+        # the application loses interest in the answer on a bidirectional stream it opened itself — possibly while the
+        # stream is still waiting for MAX_STREAMS: STOP_SENDING (like any frame naming the stream) would open it at the peer
+        seen = set()
+        for o in list(script):
+            if o["op"] != "write":
+                continue
+            own = (o["sid"] % 2 == 0) == (o["side"] == "client")
+            if own and not (o["sid"] & 2) and (o["side"], o["sid"]) not in seen:
+                seen.add((o["side"], o["sid"]))
+                if r5.random() < 0.5:
+                    script.append({"t": round(o["t"] + r5.choice([0.0, 0.0, 0.001, 0.05, 0.5]), 4), "side": o["side"], "op": "stop", "sid": o["sid"], "code": 11})
     script.sort(key=lambda o: o["t"])
     return {"seed": seed, "opts": opts, "fates": fates, "script": script, "horizon": fates["adv_seconds"] + 150.0}
 
@@ -164,7 +177,7 @@ def run_batch(batch):
         o = sc["opts"]
         sig = tuple((k, o[k]) for k in sorted(o) if k.startswith("max_"))
         sim, ok = run_case(sc, [led, dm], res, {"gen": "limits", "seeds": [seed]},
-                           counters=("stream_frames", "updates_delivered", "retransmitted_bytes", "bytes_checked", "zero_rtt_stream_frames", "delivery_checks"),
+                           counters=("stream_frames", "updates_delivered", "retransmitted_bytes", "bytes_checked", "zero_rtt_stream_frames", "delivery_checks", "other_stream_frames_checked"),
                            nontrivial=lambda s: bool(led.progress_after_block), sig_extra=sig)
         res.count("runs_blocked_then_progressed", 1 if led.progress_after_block else 0)
         res.count("runs_blocked", 1 if led.blocked_seen else 0)
